@@ -83,6 +83,9 @@ func v3Kinds() []fieldKind {
 			at("paths", "/p", "get")},
 		// present-and-empty values that mean something: an operation's empty security list opts out of the document's
 		{"operation(empty security)", gen.S{"responses": okResp}, gen.S{"security": gen.Arr()}, at("paths", "/p", "get")},
+		// one requirement naming several schemes, each with its own scope list; several requirements
+		{"operation(security with several schemes)", gen.S{"responses": okResp}, gen.S{"security": gen.Arr(gen.S{"a": gen.Arr("r", "w"), "b": gen.Arr("admin"), "c": gen.Arr()}, gen.S{"d": gen.Arr("x", "y", "z")})}, at("paths", "/p", "get")},
+		{"link(several parameters)", gen.S{"operationId": "o"}, gen.S{"parameters": gen.S{"p1": "$response.body#/id", "p2": gen.Arr("a", "b"), "p3": gen.S{"k": gen.Arr(1.0, 2.0)}, "p4": gen.Arr("c")}}, at("components", "links", "L")},
 		{"externalDocs", gen.S{"url": "http://e.x"}, gen.S{"description": "d"}, at("externalDocs")},
 		{"parameter", gen.S{"name": "p", "in": "query"}, gen.S{"description": "d", "required": true, "deprecated": true, "allowEmptyValue": true, "style": "form", "explode": false, "allowReserved": true, "schema": strSchema,
 			"example": "ex", "examples": gen.S{"e": gen.S{"value": "v"}}, "content": gen.S{"application/json": gen.S{"schema": strSchema}}}, func(obj gen.S) gen.S {
